@@ -1,10 +1,14 @@
+"""Registry: property id -> check function(prop, tier, seed, replay)."""
+import importlib
+
+_FAMILIES = {
+    "replay": ["C01", "C02", "C07", "C09"],
+    "slot": ["C11"],
+    "filter": ["C10"],
+}
+
 REGISTRY = {}
-
-
-def _reg():
-    from . import replay
-    for p in ("C01", "C02", "C07", "C09"):
-        REGISTRY[p] = replay.check
-
-
-_reg()
+for _mod, _props in _FAMILIES.items():
+    _m = importlib.import_module("fam." + _mod)
+    for _p in _props:
+        REGISTRY[_p] = _m.check
